@@ -166,6 +166,20 @@ def gen_irregular(repo):
     return m
 
 
+def gen_atomic(repo):
+    m = T.Module(f"{repo}/src/nitypes/waveform/_numeric.py", "Gen.Atomic")
+    for meth in ("_append_array", "_append_waveforms", "_load_array", "_increase_capacity"):
+        m.translate_effect_traces("NumericWaveform", meth, "numeric" + meth)
+    m2 = T.Module(f"{repo}/src/nitypes/waveform/_digital/_waveform.py", "Gen.Atomic")
+    for meth in ("_append_array", "_append_waveforms", "_load_array", "_increase_capacity"):
+        m2.translate_effect_traces("DigitalWaveform", meth, "digital" + meth)
+    m3 = T.Module(f"{repo}/src/nitypes/waveform/_spectrum.py", "Gen.Atomic")
+    for meth in ("_append_array", "_append_spectrums", "_load_array", "_increase_capacity"):
+        m3.translate_effect_traces("Spectrum", meth, "spectrum" + meth)
+    m.out += m2.out + m3.out
+    return m
+
+
 def gen_digital_state(repo):
     m = T.Module(f"{repo}/src/nitypes/waveform/_digital/_state.py", "Gen.DigitalState")
     m.translate_table_constants(["_CHAR_TABLE", "_STATE_TEST_TABLE"])
@@ -192,6 +206,7 @@ MODULES = [
     ("ComplexDtypes", lambda repo, deps: gen_complex_dtypes(repo), []),
     ("Scaling", lambda repo, deps: gen_scaling(repo), []),
     ("Irregular", lambda repo, deps: gen_irregular(repo), []),
+    ("Atomic", lambda repo, deps: gen_atomic(repo), []),
     ("DigitalState", lambda repo, deps: gen_digital_state(repo), []),
     ("Port", lambda repo, deps: gen_port(repo), []),
 ]
